@@ -74,6 +74,11 @@ PROPS["C03"] = {
         {"name": "ep-w8-basic", "world": "W8-basic", "src": "props/C03_ep.c", "tiers": ("thorough",)},
         {"name": "ep-w64-381", "world": "W64-381", "src": "props/C03_ep.c", "tiers": ("thorough",)},
         {"name": "ep-w64-446", "world": "W64-446", "src": "props/C03_ep.c", "tiers": ("thorough",)},
+        {"name": "ep-w64-160", "world": "W64-160", "src": "props/C03_ep.c", "tiers": ("thorough",)},
+        {"name": "ep-w64-192", "world": "W64-192", "src": "props/C03_ep.c", "tiers": ("thorough",)},
+        {"name": "ep-w64-224", "world": "W64-224", "src": "props/C03_ep.c", "tiers": ("thorough",)},
+        {"name": "ep-w64-384", "world": "W64-384", "src": "props/C03_ep.c", "tiers": ("thorough",)},
+        {"name": "ep-w64-521", "world": "W64-521", "src": "props/C03_ep.c", "tiers": ("thorough",)},
         {"name": "ep-w64-255", "world": "W64-255", "src": "props/C03_ep.c", "tiers": ("thorough",)},
     ],
 }
